@@ -109,6 +109,10 @@ def _pq_op(bulk_sizes):
         st.tuples(st.just('peek'), _dflt),
         st.tuples(st.just('len')),
         st.tuples(st.just('bulk'), bulk_sizes, _pattern, st.lists(_p, min_size=1, max_size=5)),
+        st.tuples(st.just('bulk'), st.sampled_from([64, 70, 100, 130]), _pattern, st.lists(_p, min_size=1, max_size=5)),
+        # mass removal / re-prioritising of the bulk tasks (every 2nd, 2 of 3, ...): most of the back end becomes dead entries
+        st.tuples(st.just('bulk_remove'), st.sampled_from([2, 3, 4]), st.integers(0, 3), st.booleans()),
+        st.tuples(st.just('bulk_readd'), st.sampled_from([2, 3]), st.integers(0, 2), _p),
     ).map(list)
 
 
@@ -253,6 +257,23 @@ def _run_history(case, out, factor, first=None, drain_limit=None):
             elif name == 'bulk':
                 if not do_bulk(op[1], op[2], op[3]):
                     return None
+            elif name in ('bulk_remove', 'bulk_readd'):
+                mod, rem = op[1], op[2] % op[1]
+                victims = [t for t in list(ref.live) if isinstance(t, str) and t[:1] == 'b' and t[1:].isdigit() and
+                           ((int(t[1:]) % mod == rem) != (name == 'bulk_remove' and bool(op[3])))]
+                for task in victims:
+                    if name == 'bulk_remove':
+                        for nm, q in qs:
+                            r = _call(q.remove, task)
+                            if r != ('ok', None):
+                                fail('remove', '%s: %s.remove(%r) -> %r' % (where, nm, task, r))
+                                return None
+                        ref.remove(task)
+                    else:
+                        if not do_add(task, PRIOS[op[3]]):
+                            return None
+                if victims:
+                    readd[0] = True
             else:
                 raise HarnessError('op %r' % (op,))
             for nm, q in qs:
